@@ -339,6 +339,14 @@ Proof.
   intros q H. unfold strip_data_tex, DATATEX. rewrite starts_ci_app_both, H. reflexivity.
 Qed.
 
+Lemma contains_app : forall pat pre q, starts_ci pat q = true -> contains_ci pat (pre ++ q) = true.
+Proof.
+  intros pat pre q H. induction pre as [|a pre IH]; simpl app.
+  - destruct q; simpl; rewrite H; reflexivity.
+  - change (contains_ci pat (a :: pre ++ q)) with (starts_ci pat (a :: pre ++ q) || contains_ci pat (pre ++ q)).
+    rewrite IH. apply orb_true_r.
+Qed.
+
 (* Data\textures\ at the front means \textures\ at offset 4 *)
 Lemma datatex_contains : forall q, starts_ci DATATEX q = true -> contains_ci BTEX q = true.
 Proof.
@@ -348,15 +356,11 @@ Proof.
   change (starts_ci DATATEX (c1 :: c2 :: c3 :: c4 :: c5 :: r)) with
     ((lower c1 =? lower 68) && ((lower c2 =? lower 97) && ((lower c3 =? lower 116) &&
      ((lower c4 =? lower 97) && ((lower c5 =? lower 92) && starts_ci TEX r))))) in H.
-  repeat (apply andb_true_iff in H; destruct H as [_ H]).
+  do 4 (apply andb_true_iff in H; destruct H as [_ H]).
   assert (starts_ci BTEX (c5 :: r) = true) as Hb.
   { change (starts_ci BTEX (c5 :: r)) with ((lower c5 =? lower 92) && starts_ci TEX r).
     exact H. }
-  change (contains_ci BTEX (c1 :: c2 :: c3 :: c4 :: c5 :: r)) with
-    (starts_ci BTEX (c1 :: c2 :: c3 :: c4 :: c5 :: r) || (starts_ci BTEX (c2 :: c3 :: c4 :: c5 :: r) ||
-     (starts_ci BTEX (c3 :: c4 :: c5 :: r) || (starts_ci BTEX (c4 :: c5 :: r) ||
-      (starts_ci BTEX (c5 :: r) || match r with [] => false | _ :: r0 => contains_ci BTEX r0 end))))).
-  rewrite Hb. rewrite !orb_true_r. reflexivity.
+  apply (contains_app BTEX [c1; c2; c3; c4] (c5 :: r) Hb).
 Qed.
 
 Section Clean.
